@@ -27,7 +27,8 @@ MC_MaxLen == IF Big THEN 3 ELSE 3
 Export ==
   path = <<>> \/
   Serialize(ToJson([si |-> si, d |-> Starts[si], path |-> path, exp |-> exp, ids |-> ids,
-                    mk |-> ModelK, mview |-> ModelView]) \o "\n", IOEnv.OUT_FILE,
+                    mk |-> ModelK, mview |-> ModelView,
+                    hasdesc |-> exp.k = "ok" /\ exp.wclaim, desc |-> ChainDesc(Starts[si], path)]) \o "\n", IOEnv.OUT_FILE,
             [format |-> "TXT", charset |-> "UTF-8",
              openOptions |-> <<"WRITE", "CREATE", "APPEND">>]).exitValue = 0
 =============================================================================
